@@ -16,6 +16,7 @@ import (
 func init() {
 	verifrt.Register("H_C20_Strays", H_C20_Strays)
 	verifrt.Register("H_C20_Held", H_C20_Held)
+	verifrt.Register("H_C20_Unvalidated", H_C20_Unvalidated)
 	verifrt.Register("H_C20_Prune", H_C20_Prune)
 }
 
@@ -195,4 +196,36 @@ func H_C20_Held(v *verifrt.T) {
 	v.Quiesce()
 	v.Assert(v.FileIs(filepath.Join(e.final, "a"), "v1"), "C20/C06 the held file is delivered after the restart, once its predecessor has arrived")
 	v.Reach("delivered")
+}
+
+
+// O2c: a file that is completely received but not yet validated (the validators
+// have not come to it) and an old partial of the same version that the sender
+// started over: nothing is known to be delivered yet, so cleaning must leave
+// the partial (and the record) alone — the transfer that started over can then
+// go on.
+func H_C20_Unvalidated(v *verifrt.T) {
+	size := v.Int64("size")
+	v.Assume(size >= 2)
+	v.Assume(size <= 4096)
+	m := v.Int64("split")
+	v.Assume(1 <= m)
+	v.Assume(m < size)
+	h1 := v.Version("v1", size)
+	e := newEnv(v)
+	v.Assert(e.sendPart("a", "", h1, size, 0, size, "v1") == nil, "C20 set-up: the file is received")
+	// (no Quiesce: received, waiting for a validator)
+	v.Assert(v.Exists(filepath.Join(e.stage, "a"+fullExt)), "C20 set-up: complete, not validated")
+	// the sender starts over (it never got the answer): the first part again
+	e.s.Prepare([]sts.Binned{&vBinned{name: "a", hash: h1, size: size, beg: 0, end: m, t: v.Now()}})
+	part := filepath.Join(e.stage, "a.part")
+	v.Assert(v.Exists(part), "C20 set-up: the partial of the repeated transfer")
+	age := v.Duration("age", 0, 72*time.Hour)
+	v.Assume(verifrt.Or(age+time.Minute <= 24*time.Hour, age >= 24*time.Hour+time.Minute))
+	v.SetAge(part, age)
+	e.s.cleanStrays(24 * time.Hour)
+	v.Assert(v.Exists(part), "C20.O1 a partial is removed only if that version was delivered or logged — not while it is merely received")
+	// the repeated transfer goes on
+	v.Assert(e.sendPart("a", "", h1, size, 0, m, "v1") == nil, "C20.O2 the transfer that started over can go on after the cleaning")
+	v.Reach("cleaned")
 }
